@@ -223,6 +223,32 @@ def frame_violations(st, allow=()):
     return bad
 
 
+def containers_changed(pre, st, own=()):
+    """pre-existing dicts / lists / sets whose content differs from the pre-state (covers writes inside loops that are cut at
+    an invariant: the havoc replaces the content terms)"""
+    bad = []
+    for i, h0 in pre.heap.items():
+        if i in own or i in st.allocated or i not in st.heap:
+            continue
+        h1 = st.heap[i]
+        same = True
+        if isinstance(h0, HDict):
+            same = (h0.items == h1.items) if h0.concrete and h1.concrete else (not h0.concrete and not h1.concrete and h0.dom.eq(h1.dom) and h0.val.eq(h1.val))
+        elif isinstance(h0, HList):
+            same = (h0.items == h1.items) if h0.concrete and h1.concrete else (not h0.concrete and not h1.concrete and h0.n.eq(h1.n) and _arr_eq(h0.arr, h1.arr))
+        elif isinstance(h0, HSet):
+            same = (h0.items == h1.items) if h0.items is not None and h1.items is not None else (h0.items is None and h1.items is None and h0.dom.eq(h1.dom))
+        if not same:
+            bad.append(f"{type(h0).__name__}#{i} content")
+    return bad
+
+
+def _arr_eq(a, b):
+    if isinstance(a, tuple):
+        return isinstance(b, tuple) and len(a) == len(b) and all(_arr_eq(x, y) for x, y in zip(a, b))
+    return a.eq(b)
+
+
 class Globals:
     """model class of a template's `globals` mapping (a ChainMap over the environment globals)"""
 
@@ -511,6 +537,7 @@ class FrameOf(Task):
                 if isinstance(h, HObj) and h.cls is E.Template:
                     allow.add((i, "_module"))
             bad = [b for b in frame_violations(o.st, allow) if int(b.split("#")[1].split(".")[0]) not in own]
+            bad += containers_changed(pre, o.st, own)
             nm = f"{self.name}.writes_only_what_it_allocated#p{o.idx}"
             if bad:
                 res.append(Res(nm, "refuted", "pyvc-path", 0, f"{task.target}: writes to pre-existing objects: {bad[:4]}", self.kind,
@@ -563,7 +590,7 @@ class FrameOf(Task):
         return pre, outs, own
 
     def replay(self, w):
-        if self.relist:
+        if self.relist and "module" in (self.relist_as or ""):
             v, d = native_module_cache(w)
             if v:
                 return v, d
@@ -617,7 +644,8 @@ def entry_tasks():
     for n in (0, 2):
         for s_ in (False, True):
             ts.append(FrameOf(f"TemplateModule.__init__[exports={n},body_stream={'given' if s_ else 'None'}]", c05, f"ModuleInit({n}, {s_})"))
-    ts += [FrameOf("Context.__init__[globals=None]", "contracts.c04", "ContextInit(False)"), FrameOf("Context.__init__[globals]", "contracts.c04", "ContextInit(True)"),
+    ts += [FrameOf("Context.__init__[globals=None]", "contracts.c04", "ContextInit(False)", relist=("other_fields",), relist_as="C29.frame.entry.Context.__init__.fresh_vars"),
+           FrameOf("Context.__init__[globals]", "contracts.c04", "ContextInit(True)", relist=("other_fields",), relist_as="C29.frame.entry.Context.__init__.fresh_vars"),
            FrameOf("Context.derived", "contracts.c04", "ContextDerived()"), FrameOf("Context.call", "contracts.c18", "ContextCall()")]
     return ts
 
